@@ -27,6 +27,7 @@ type snapshot struct {
 	phis []Val
 	base map[int]*Object // the state's base map at snapshot time (shared)
 	heap map[int]*Object // copy of the delta at snapshot time (nil: not taken)
+	sync int             // thread mode: synchronisation operations performed by the thread so far
 }
 
 func (s *snapshot) get(id int) *Object {
@@ -89,6 +90,7 @@ type Thread struct {
 	waitMode  int // 1 RLock, 2 Lock, 3 WaitGroup.Wait, 4 channel
 	waitLock  lockID
 	waitChans []waitCh
+	syncN     int
 }
 
 func (t *Thread) clone() *Thread {
@@ -827,7 +829,12 @@ func (e *Engine) enterBlock(st *State, fr *Frame) {
 			}
 		}
 	}
-	if prev := fr.snaps[b]; prev != nil && (prev.heap != nil || len(prev.phis) > 0) {
+	syncN := 0
+	if e.threadMode {
+		syncN = st.threads[st.cur].syncN
+	}
+	// thread mode: an iteration that went through a blocking-capable synchronisation operation is not a spin
+	if prev := fr.snaps[b]; prev != nil && (prev.heap != nil || len(prev.phis) > 0) && prev.sync == syncN {
 		eq := e.tb.tt
 		if prev.heap == nil && !differConcretely(prev.phis, allPhis) {
 			eq = e.tb.ff // no heap snapshot was taken (all-concrete phis): cannot conclude anything
@@ -907,7 +914,7 @@ func (e *Engine) enterBlock(st *State, fr *Frame) {
 			hp[k] = v
 		}
 	}
-	fr.snaps[b] = &snapshot{phis: allPhis, base: st.base, heap: hp}
+	fr.snaps[b] = &snapshot{phis: allPhis, base: st.base, heap: hp, sync: syncN}
 	if fr.counts[b] > e.cfg.MaxLoop {
 		e.inconc = append(e.inconc, fmt.Sprintf("%s: unwinding bound %d reached in %s (%s)", e.harness, e.cfg.MaxLoop, fr.fn, exprText(e.prog, fr.fn.Pos())))
 		panic(pathDead{"unwind"})
